@@ -18,10 +18,13 @@ import (
 	"crypto/sha256"
 	"crypto/x509"
 	"database/sql"
+	"database/sql/driver"
 	"encoding/base64"
 	"encoding/json"
 	"encoding/pem"
+	"errors"
 	"fmt"
+	sqlite3 "github.com/mattn/go-sqlite3"
 	"io"
 	"net/http"
 	"net/http/httptest"
@@ -269,11 +272,17 @@ type op struct {
 	Log   *logDef
 	Cand  *cand
 	Proof string
+	// CommitFails: the database refuses the COMMIT of this update's transaction (SQLITE_BUSY / disk
+	// full at the last step): the update must fail and the witness must go on holding what it held
+	CommitFails bool
 }
 
 func (o op) String() string {
 	switch o.Kind {
 	case "update":
+		if o.CommitFails {
+			return fmt.Sprintf("Update(%s, %s, proof=%s, COMMIT fails)", o.Log.name, o.Cand.name, o.Proof)
+		}
 		return fmt.Sprintf("Update(%s, %s, proof=%s)", o.Log.name, o.Cand.name, o.Proof)
 	case "getsth":
 		return fmt.Sprintf("GetSTH(%s)", o.Log.name)
@@ -344,11 +353,79 @@ type inst struct {
 	db *sql.DB
 	w  *vw.Witness
 	h  http.Handler
+	// failCommit: the next COMMIT on this instance's database fails (and rolls back)
+	failCommit *atomic.Bool
+	// responses handed out by the API so far, with a copy taken when they were returned
+	handed [][2][]byte
 }
+
+// ---- sqlite with an injectable COMMIT failure -------------------------------------------
+
+var (
+	fdOnce  sync.Once
+	fdFlags sync.Map // id -> *atomic.Bool
+)
+
+type fdriver struct{}
+
+func (fdriver) Open(name string) (driver.Conn, error) {
+	id, dsn, _ := strings.Cut(name, "|")
+	v, ok := fdFlags.Load(id)
+	if !ok {
+		return nil, fmt.Errorf("no flag %q", id)
+	}
+	c, err := (&sqlite3.SQLiteDriver{}).Open(dsn)
+	if err != nil {
+		return nil, err
+	}
+	return &fconn{c: c.(*sqlite3.SQLiteConn), fail: v.(*atomic.Bool)}, nil
+}
+
+type fconn struct {
+	c    *sqlite3.SQLiteConn
+	fail *atomic.Bool
+}
+
+func (f *fconn) Prepare(q string) (driver.Stmt, error) { return f.c.Prepare(q) }
+func (f *fconn) Close() error                          { return f.c.Close() }
+func (f *fconn) Begin() (driver.Tx, error) {
+	return f.BeginTx(context.Background(), driver.TxOptions{})
+}
+func (f *fconn) BeginTx(ctx context.Context, o driver.TxOptions) (driver.Tx, error) {
+	tx, err := f.c.BeginTx(ctx, o)
+	if err != nil {
+		return nil, err
+	}
+	return &ftx{tx: tx, f: f}, nil
+}
+func (f *fconn) ExecContext(ctx context.Context, q string, args []driver.NamedValue) (driver.Result, error) {
+	return f.c.ExecContext(ctx, q, args)
+}
+func (f *fconn) QueryContext(ctx context.Context, q string, args []driver.NamedValue) (driver.Rows, error) {
+	return f.c.QueryContext(ctx, q, args)
+}
+
+type ftx struct {
+	tx driver.Tx
+	f  *fconn
+}
+
+func (t *ftx) Commit() error {
+	if t.f.fail.CompareAndSwap(true, false) {
+		t.tx.Rollback()
+		return errors.New("database is locked (injected failure at COMMIT)")
+	}
+	return t.tx.Commit()
+}
+func (t *ftx) Rollback() error { return t.tx.Rollback() }
 
 func newInst() (*inst, error) {
 	// a private in-memory database; one connection, as in production (impl.Main)
-	db, err := sql.Open("sqlite3", fmt.Sprintf("file:c19mem%d?mode=memory&cache=shared", dbSeq.Add(1)))
+	fdOnce.Do(func() { sql.Register("faulty-sqlite3", fdriver{}) })
+	n := dbSeq.Add(1)
+	flag := &atomic.Bool{}
+	fdFlags.Store(fmt.Sprint(n), flag)
+	db, err := sql.Open("faulty-sqlite3", fmt.Sprintf("%d|file:c19mem%d?mode=memory&cache=shared", n, n))
 	if err != nil {
 		return nil, err
 	}
@@ -365,7 +442,7 @@ func newInst() (*inst, error) {
 		db.Close()
 		return nil, err
 	}
-	return &inst{db: db, w: w, h: vw.NewHandler(w)}, nil
+	return &inst{db: db, w: w, h: vw.NewHandler(w), failCommit: flag}, nil
 }
 
 func (i *inst) close() { i.db.Close() }
@@ -409,6 +486,8 @@ type result struct {
 }
 
 func (i *inst) do(o op, viaHTTP bool) result {
+	i.failCommit.Store(o.CommitFails)
+	defer i.failCommit.Store(false)
 	if !viaHTTP {
 		switch o.Kind {
 		case "update":
@@ -551,6 +630,16 @@ func (c *checker) checkOp(in *inst, s refState, o op, viaHTTP bool, path []op) r
 		viol("panic", "%s\n%s", msg, stack)
 		return s
 	}
+	// what the API handed out earlier belongs to the caller: later calls must not rewrite it
+	for k, h := range in.handed {
+		if !bytes.Equal(h[0], h[1]) {
+			viol("returned-response-overwritten-by-later-call", "response #%d handed out earlier now reads %.60q, it was %.60q", k, h[0], h[1])
+			in.handed[k][1] = append([]byte{}, h[0]...)
+		}
+	}
+	if !viaHTTP && len(res.body) > 0 && len(in.handed) < 64 {
+		in.handed = append(in.handed, [2][]byte{res.body, append([]byte{}, res.body...)})
+	}
 	after, err := in.rows()
 	if err != nil {
 		viol("harness-db", "%v", err)
@@ -584,6 +673,10 @@ func (c *checker) checkOp(in *inst, s refState, o op, viaHTTP bool, path []op) r
 	switch o.Kind {
 	case "update":
 		ex, next := refUpdate(s, o)
+		if o.CommitFails && ex.applied {
+			// the update was fine but could not be made durable: it fails, nothing changes, nothing is cosigned
+			ex, next = expect{errWanted: true, class: "commit-fails"}, s
+		}
 		c.count(ex.class)
 		if !same(after, expRows(next)) {
 			switch {
@@ -689,6 +782,9 @@ func TestCheck(t *testing.T) {
 		}
 		alphabet = append(alphabet, op{Kind: "getsth", Log: id})
 	}
+	for _, cd := range cands {
+		alphabet = append(alphabet, op{Kind: "update", Log: logA, Cand: cd, Proof: "correct", CommitFails: true})
+	}
 	for _, al := range aliases(logA) {
 		for _, cd := range cands {
 			for _, pk := range []string{"correct", "empty"} {
@@ -698,7 +794,7 @@ func TestCheck(t *testing.T) {
 		alphabet = append(alphabet, op{Kind: "getsth", Log: al})
 	}
 	alphabet = append(alphabet, op{Kind: "getlogs"})
-	r.Rule("explicit-state BFS: state = stored raw STH per log (read back from the witness database); every state is reached by replaying its shortest operation path on a fresh real witness over a fresh sqlite database; from every state every operation of the alphabet is run on the real code (directly and through the HTTP server) and compared with a reference witness (map + RFC 6962 consistency verification by ref/merkle). Alphabet: Update x {log A, log B, unknown log id, two alias spellings of log A's id (non-zero base64 padding bits, trailing newline; proofs correct/empty)} x candidate STHs (honest sizes 0..5, fork sizes 3..5 diverging at leaf 2, other timestamp, embedded id right/wrong, flipped signature, other log's key, unknown key, log B sizes 0..2, non-JSON) x 9 proof kinds (correct, empty, for m+1, for m-1, other family, truncated, padded, random, duplicated hash), GetSTH per id, GetLogs")
+	r.Rule("explicit-state BFS: state = stored raw STH per log (read back from the witness database); every state is reached by replaying its shortest operation path on a fresh real witness over a fresh sqlite database; from every state every operation of the alphabet is run on the real code (directly and through the HTTP server) and compared with a reference witness (map + RFC 6962 consistency verification by ref/merkle). Alphabet: Update x {log A, log B, unknown log id, two alias spellings of log A's id (non-zero base64 padding bits, trailing newline; proofs correct/empty)} x candidate STHs (honest sizes 0..5, fork sizes 3..5 diverging at leaf 2, other timestamp, embedded id right/wrong, flipped signature, other log's key, unknown key, log B sizes 0..2, non-JSON) x 9 proof kinds (correct, empty, for m+1, for m-1, other family, truncated, padded, random, duplicated hash), GetSTH per id, GetLogs; Update of log A with every candidate and a COMMIT that the database refuses; every response the API handed out is re-read after every later call")
 	r.Assume("the witness keeps no state outside its database table, so a state may be restored by rewriting the rows between transitions of one expansion (each state itself is first reached by replay)",
 		"a candidate is a genuine extension iff the held tree's leaves are a prefix of its leaves (two-family construction); the reference applies an update iff the supplied proof verifies under RFC 6962")
 	c := &checker{r: r}
